@@ -4,6 +4,7 @@ import (
 	"context"
 	"io"
 	"net"
+	"sync"
 	"testing"
 	"time"
 
@@ -183,10 +184,10 @@ func CaptureLive(t *testing.T, spec *quic.QUICSpec, conf *quic.Config, faults []
 // FrameStats summarises the frames of one packet.
 type FrameStats struct {
 	Crypto, Ping, PaddingRuns, Ack, Other int
-	CryptoBytes                            int
-	FrameBytes                             int // total wire length of all frames
-	LowestOff, HighestEnd                  uint64
-	Ranges                                 [][2]uint64
+	CryptoBytes                           int
+	FrameBytes                            int // total wire length of all frames
+	LowestOff, HighestEnd                 uint64
+	Ranges                                [][2]uint64
 }
 
 // Stats computes FrameStats.
@@ -237,4 +238,52 @@ func Decodable(pn uint64, pnLen int) bool {
 		pn = 0
 	}
 	return pn < uint64(1)<<(8*uint(pnLen)-1)
+}
+
+// TokenObs is one Initial packet seen on the wire during CaptureOverlap.
+type TokenObs struct {
+	T     time.Duration
+	DCID  []byte
+	Token []byte
+}
+
+// CaptureOverlap dials the SAME spec value twice into a black hole from two sockets, the second dial starting gap
+// after the first, and returns every Initial packet (first flights and PTO retransmissions) seen during dur.
+func CaptureOverlap(t *testing.T, spec *quic.QUICSpec, gap, dur time.Duration) []TokenObs {
+	var out []TokenObs
+	sim.Bubble(t, 5*time.Second, func() {
+		w := sim.NewWorldBlackholeServer(10 * time.Millisecond)
+		defer w.Close()
+		w.Router.KeepData = true
+		w.Observe().InitialPNHint = pnHint(spec)
+		ctA := &quic.Transport{Conn: w.ClientConn}
+		ctB := &quic.Transport{Conn: w.NewEndpoint(&net.UDPAddr{IP: net.ParseIP("1.0.0.1"), Port: 9777})}
+		ctx, cancel := context.WithTimeout(context.Background(), dur)
+		defer cancel()
+		conf := &quic.Config{DisablePathMTUDiscovery: true, HandshakeIdleTimeout: 30 * time.Second}
+		var wg sync.WaitGroup
+		dial := func(ct *quic.Transport, delay time.Duration) {
+			defer wg.Done()
+			time.Sleep(delay)
+			conn, _ := (&quic.UTransport{Transport: ct, QUICSpec: spec}).Dial(ctx, sim.ServerAddr, sim.ClientTLS(w.ClientKeys), conf)
+			if conn != nil {
+				conn.CloseWithError(0, "")
+			}
+		}
+		wg.Add(2)
+		go dial(ctA, 0)
+		go dial(ctB, gap)
+		wg.Wait()
+		for _, rec := range w.Router.Log {
+			pk, _ := rec.Pkts.([]*sim.Packet)
+			for _, p := range pk {
+				if rec.Dir == "c2s" && p.Kind == "initial" {
+					out = append(out, TokenObs{rec.T, append([]byte(nil), p.DCID...), append([]byte(nil), p.Token...)})
+				}
+			}
+		}
+		ctA.Close()
+		ctB.Close()
+	}, nil)
+	return out
 }
